@@ -79,24 +79,32 @@ static int extra_op(const char *op) {
     OP("geo_read") { int B = ti(), F = ti(), G = ti(); fout o = fo(ti()), o2 = fo(ti()), o3 = fo(ti()); char c[33], cad[33], *file = 0; int np = -1;
         ier = cg_geo_read(fn, B, F, G, c, &file, cad, &np); if (!ier) { fref(o, c); fref(o2, file ? file : ""); fref(o3, cad); if (file) cg_free(file); }
         IER(ier); if (!ier) printf(" np=%d", np); pf("name", o); pf("file", o2); pf("cad", o3); NL; }
-    OP("gotov") { int B = ti(), k = ti(), i, ix[4] = {0}; const char *lab[4] = {"", "", "", ""};
-        for (i = 0; i < k && i < 4; i++) { fstr s = ts(); lab[i] = eqv(s, 8000); ix[i] = ti(); }
+    /* cg_goto_f / cg_gorel_f with 0..20 pairs.  mode f: what the module procedure does (cg_goto_fc1, then cg_gorel_fc1 per
+       pair, stop at the first error); mode c: ONE variadic cg_goto / cg_gorel with all twenty slots, the unused ones "end" */
+    OP("gotov") { int B = ti(), k = ti(), i, x[20]; const char *l[20]; static char lb[20][8200];   /* eqv() rotates 8 buffers only */
+        for (i = 0; i < 20; i++) { l[i] = "end"; x[i] = 0; }
+        for (i = 0; i < k && i < 20; i++) { fstr s = ts(); strcpy(lb[i], eqv(s, 8000)); l[i] = lb[i]; x[i] = ti(); }
         if (MODEF) { if (k < 1) ier = cg_goto_fc1(fn, B, "end", 0);
-            else { ier = cg_goto_fc1(fn, B, (char *)lab[0], ix[0]); for (i = 1; i < k && i < 4 && !ier; i++) ier = cg_gorel_fc1(fn, (char *)lab[i], ix[i]); } }
-        else ier = k < 1 ? cg_goto(fn, B, "end") : k == 1 ? cg_goto(fn, B, lab[0], ix[0], "end") : k == 2 ? cg_goto(fn, B, lab[0], ix[0], lab[1], ix[1], "end") :
-                   k == 3 ? cg_goto(fn, B, lab[0], ix[0], lab[1], ix[1], lab[2], ix[2], "end") : cg_goto(fn, B, lab[0], ix[0], lab[1], ix[1], lab[2], ix[2], lab[3], ix[3], "end");
+            else { ier = cg_goto_fc1(fn, B, (char *)l[0], x[0]); for (i = 1; i < k && i < 20 && !ier; i++) ier = cg_gorel_fc1(fn, (char *)l[i], x[i]); } }
+        else ier = cg_goto(fn, B, l[0], x[0], l[1], x[1], l[2], x[2], l[3], x[3], l[4], x[4], l[5], x[5], l[6], x[6], l[7], x[7], l[8], x[8], l[9], x[9],
+                           l[10], x[10], l[11], x[11], l[12], x[12], l[13], x[13], l[14], x[14], l[15], x[15], l[16], x[16], l[17], x[17], l[18], x[18],
+                           l[19], x[19], "end");
         IER(ier); NL; }
-    OP("gorelv") { int k = ti(), i, ix[4] = {0}; const char *lab[4] = {"", "", "", ""};
-        for (i = 0; i < k && i < 4; i++) { fstr s = ts(); lab[i] = eqv(s, 8000); ix[i] = ti(); }
+    OP("gorelv") { int k = ti(), i, x[20]; const char *l[20]; static char lb[20][8200];
+        for (i = 0; i < 20; i++) { l[i] = "end"; x[i] = 0; }
+        for (i = 0; i < k && i < 20; i++) { fstr s = ts(); strcpy(lb[i], eqv(s, 8000)); l[i] = lb[i]; x[i] = ti(); }
         if (MODEF) { if (k < 1) ier = cg_gorel_fc1(fn, "end", 0);
-            else { ier = 0; for (i = 0; i < k && i < 4 && !ier; i++) ier = cg_gorel_fc1(fn, (char *)lab[i], ix[i]); } }
-        else ier = k < 1 ? cg_gorel(fn, "end") : k == 1 ? cg_gorel(fn, lab[0], ix[0], "end") : k == 2 ? cg_gorel(fn, lab[0], ix[0], lab[1], ix[1], "end") :
-                   k == 3 ? cg_gorel(fn, lab[0], ix[0], lab[1], ix[1], lab[2], ix[2], "end") : cg_gorel(fn, lab[0], ix[0], lab[1], ix[1], lab[2], ix[2], lab[3], ix[3], "end");
+            else { ier = 0; for (i = 0; i < k && i < 20 && !ier; i++) ier = cg_gorel_fc1(fn, (char *)l[i], x[i]); } }
+        else ier = cg_gorel(fn, l[0], x[0], l[1], x[1], l[2], x[2], l[3], x[3], l[4], x[4], l[5], x[5], l[6], x[6], l[7], x[7], l[8], x[8], l[9], x[9],
+                            l[10], x[10], l[11], x[11], l[12], x[12], l[13], x[13], l[14], x[14], l[15], x[15], l[16], x[16], l[17], x[17], l[18], x[18],
+                            l[19], x[19], "end");
         IER(ier); NL; }
     else return 0;
     fflush(stdout);
     return 1;
 }
+
+#include "c20f_ref_impl.h"
 
 int main(int argc, char **argv) {
     static char big[70000], copy[70000];
@@ -112,7 +120,9 @@ int main(int argc, char **argv) {
         for (char *t = strtok(copy, " \t\r\n"); t && ntok < 80; t = strtok(NULL, " \t\r\n")) toks[ntok++] = t;
         if (!ntok || toks[0][0] == '#') continue;
         strncpy(op, toks[0], 63); op[63] = 0;
-        if (extra_op(op)) continue;          /* OP() / IER() of c20_wrap.c refer to a variable called op */
+        if (extra_op(op)) continue;
+        itok = 1;
+        if (extra_op2(op)) continue;          /* OP() / IER() of c20_wrap.c refer to a variable called op */
         {
             FILE *one = fmemopen(big, strlen(big), "r");
             if (!one) return 3;
